@@ -21,11 +21,14 @@ CLAIMS = {
         "Tied by injecting failing commands of every class into random histories and comparing list/state file/probed targets/routing afterwards.",
    note=TB + "Probe loops are observed white-box through the health-check contexts."),
 
-'C10': dict(engine='rollout+control', technique='Lean 4 proof (decision stated outright; monotonicity by kernel-checked decide over all 101 percentages, lifted) + differential correspondence run',
+'C10': dict(engine='rollout+control', technique='Lean 4 proof (decision stated outright; monotonicity by kernel-checked decide over all 101 percentages, lifted; split invariance by induction over command histories) + differential correspondence run',
    text="Theorems: the rollout decision is exactly (rollout targets exist, split set, cookie value non-empty, on the allowlist or hash <= split "
         "point); it is a pure function of the value (sticky); included at p implies included at every q >= p up to 100; 100% includes every "
         "value; the included share of the 2^32 hash space is within 2.4e-8 of p/100 for all 101 percentages; no cookie / no split / after "
-        "rollout stop => active targets; rollout set without rollout targets is rejected and changes nothing. Tied by comparing Go's split "
+        "rollout stop => active targets; rollout set without rollout targets is rejected and changes nothing; stickiness over whole histories "
+        "(C10_split_survives_command / _history, by induction over ANY command sequence): the split of a service is left exactly as set by every "
+        "command other than rollout set / rollout stop on that service, remove and restart - incl. redeploys, failed deploys, pause/stop/resume, "
+        "commands on other services. Tied by comparing Go's split "
         "point for every percentage, cookie extraction and decision on generated headers, and rollout histories on the real Router.",
    note=TB + "Modelled stdlib: float64 rounding (2 operations), net/http readCookies, hash/fnv. Statistical uniformity of FNV-1a is not proved."),
 
